@@ -1,20 +1,128 @@
-use vharness::proto::*;
-use vharness::tape::*;
+//! vcheck <ID> --tier quick|thorough --seed N [--suite NAME] [--scale F]
+//! vcheck <ID> --replay FILE
+//! vcheck selftest          (start-up self-checks only)
+
+use std::path::PathBuf;
+use std::time::Instant;
+
+use vharness::runner::*;
+
+fn usage() -> ! {
+    eprintln!("usage: vcheck <ID> [--tier quick|thorough] [--seed N] [--suite NAME] [--scale F] [--replay FILE] [--verif-dir DIR]");
+    std::process::exit(2);
+}
+
 fn main() {
-    for s in vharness::suites::all_suites() {
-        let m = s.meta();
-        let mut rng = TapeSpec::from_u64(1).rng();
-        let t0 = std::time::Instant::now();
-        let setup = s.setup_new(&mut rng);
-        let (req, st) = s.client_reg_start(&mut rng, b"pw").unwrap();
-        let resp = s.server_reg_start(&setup, &req, b"cred").unwrap();
-        let fin = s.client_reg_finish(st, &mut rng, b"pw", &resp, Ids::default(), None).unwrap();
-        let rec = s.server_reg_finish(&fin.upload);
-        let (lreq, lst) = s.client_login_start(&mut rng, b"pw").unwrap();
-        let (lresp, sst) = s.server_login_start(&mut rng, &setup, Some(&rec), &lreq, b"cred", None, Ids::default()).unwrap();
-        let lf = s.client_login_finish(lst, b"pw", &lresp, None, Ids::default(), None).unwrap();
-        let sk = s.server_login_finish(sst, &lf.fin).unwrap();
-        assert_eq!(sk, lf.session_key);
-        println!("{:45} ok {:?} {:?}", m.name, t0.elapsed(), m);
+    let args: Vec<String> = std::env::args().collect();
+    if args.len() < 2 {
+        usage();
     }
+    let id = args[1].clone();
+    let mut tier = match std::env::var("VERIF_TIER").ok().as_deref() {
+        Some("thorough") => Tier::Thorough,
+        _ => Tier::Quick,
+    };
+    let mut seed: u64 = std::env::var("VERIF_SEED").ok().and_then(|s| s.parse().ok()).unwrap_or(0);
+    let mut suite_filter = None;
+    let mut scale = 1.0f64;
+    let mut replay: Option<String> = None;
+    let mut verif_dir = PathBuf::from("/verif");
+    let mut i = 2;
+    while i < args.len() {
+        let need = |i: usize| -> String { args.get(i + 1).cloned().unwrap_or_else(|| usage()) };
+        match args[i].as_str() {
+            "--tier" => {
+                tier = match need(i).as_str() {
+                    "quick" => Tier::Quick,
+                    "thorough" => Tier::Thorough,
+                    _ => usage(),
+                };
+                i += 1;
+            }
+            "--seed" => {
+                seed = need(i).parse().unwrap_or_else(|_| usage());
+                i += 1;
+            }
+            "--suite" => {
+                suite_filter = Some(need(i));
+                i += 1;
+            }
+            "--scale" => {
+                scale = need(i).parse().unwrap_or_else(|_| usage());
+                i += 1;
+            }
+            "--replay" => {
+                replay = Some(need(i));
+                i += 1;
+            }
+            "--verif-dir" => {
+                verif_dir = PathBuf::from(need(i));
+                i += 1;
+            }
+            _ => usage(),
+        }
+        i += 1;
+    }
+    let cfg = RunCfg {
+        tier,
+        seed,
+        suite_filter,
+        verif_dir,
+        scale,
+    };
+    install_panic_hook();
+    match guarded(vharness::selftest::startup) {
+        Ok(Ok(())) => {}
+        Ok(Err(e)) => {
+            println!("INCONCLUSIVE harness self-test failed: {e}");
+            std::process::exit(2);
+        }
+        Err(p) => {
+            println!("INCONCLUSIVE harness self-test panicked: {p}");
+            std::process::exit(2);
+        }
+    }
+    if id == "selftest" {
+        println!("selftest ok");
+        return;
+    }
+    let reg = vharness::props::registry();
+    let Some((pid, run, replay_fn)) = reg.into_iter().find(|(p, _, _)| *p == id) else {
+        eprintln!("unknown property {id}");
+        std::process::exit(2);
+    };
+    if let Some(file) = replay {
+        let body: serde_json::Value = match std::fs::read(&file).ok().and_then(|b| serde_json::from_slice(&b).ok()) {
+            Some(v) => v,
+            None => {
+                println!("INCONCLUSIVE cannot read replay file {file}");
+                std::process::exit(2);
+            }
+        };
+        let suite_name = body.get("suite").and_then(|s| s.as_str()).unwrap_or("");
+        let Some(suite) = vharness::suites::by_name(suite_name) else {
+            println!("INCONCLUSIVE unknown suite in replay file: {suite_name}");
+            std::process::exit(2);
+        };
+        match replay_fn(&cfg, suite, body.get("case").unwrap_or(&serde_json::Value::Null)) {
+            Ok(Ok(())) => {
+                println!("REPLAY-PASS property={pid} replay={file}");
+                std::process::exit(0);
+            }
+            Ok(Err(f)) => {
+                eprintln!("[{pid}] replay fails: {}", f.reason);
+                println!("VIOLATION property={pid} replay={file}");
+                std::process::exit(1);
+            }
+            Err(Inconclusive(m)) => {
+                println!("INCONCLUSIVE property={pid} {m}");
+                std::process::exit(2);
+            }
+        }
+    }
+    start_watchdog(pid, 900);
+    let t0 = Instant::now();
+    let (out, ev) = run(&cfg);
+    let code = finish(&cfg, pid, t0, out, ev);
+    std::process::exit(code);
 }
